@@ -59,6 +59,8 @@ type SimConn struct {
 	errWithData bool  // the last bytes and rerr are returned by the same Read call
 	ErrSeen     bool  // a Read has returned rerr (the reader consumed the end condition)
 	rwait       chan struct{}
+	laArm       bool
+	laGate      chan struct{}
 	MaxRead     int // cap per Read, 0 = none
 	inRead      bool
 	Reads       int
@@ -411,8 +413,45 @@ func (c *SimConn) ClosedAt() (bool, time.Duration) {
 	return c.closed, c.CloseAt
 }
 
-func (c *SimConn) LocalAddr() net.Addr           { return c.laddr }
-func (c *SimConn) RemoteAddr() net.Addr          { return c.raddr }
+// LocalAddr can be made a scheduling point: when armed, the (first) caller parks until released.
+func (c *SimConn) LocalAddr() net.Addr {
+	c.mu.Lock()
+	if c.laArm {
+		c.laArm = false
+		ch := make(chan struct{})
+		c.laGate = ch
+		c.e.ParkBegin(true)
+		c.mu.Unlock()
+		<-ch
+		return c.laddr
+	}
+	c.mu.Unlock()
+	return c.laddr
+}
+
+// ArmLocalAddrPark makes the next LocalAddr call park; ReleaseLocalAddr lets it go on.
+func (c *SimConn) ArmLocalAddrPark() {
+	c.mu.Lock()
+	c.laArm = true
+	c.mu.Unlock()
+}
+
+func (c *SimConn) ReleaseLocalAddr() bool {
+	c.mu.Lock()
+	c.laArm = false
+	ch := c.laGate
+	c.laGate = nil
+	if ch != nil {
+		c.e.ParkEnd(true)
+	}
+	c.mu.Unlock()
+	if ch != nil {
+		close(ch)
+		return true
+	}
+	return false
+}
+func (c *SimConn) RemoteAddr() net.Addr { return c.raddr }
 func (c *SimConn) SetDeadline(t time.Time) error {
 	c.SetReadDeadline(t)
 	return c.SetWriteDeadline(t)
